@@ -38,11 +38,11 @@ Definition racode2 (x : relact) : N * N := ((match ra_pc x with RGate => 1 | RDo
 Definition ccode6 (x : cons) : N * N * N * N * N * N :=
   let '(a, b, c, d) := (match cpcv x with
                         | CRet v e h => (3, nn v, nn e, nb h)
-                        | CAccCb v => (6, nn v, 0, nb (ac_cbcanc x || ccanc x))
-                        | CAccRet code => (3, nn code, 0, 0)
-                        | _ => (2, 0, 0, 0)
+                        | CAccCb v => (6, nn v, nwatch x, nb (ac_cbcanc x || ccanc x))
+                        | CAccRet code => (3, nn code, nwatch x, 0)
+                        | _ => (2, 0, nwatch x, 0)
                         end)%N in
-  (a, b, c, d, nn (ww_fired x), (match ww_firepc x with None => 0 | Some RGate => 1 | Some RDone => 5 end)%N).
+  (a, b, c, d, nn (ww_fired x), (match ww_firepc x with None => (if ac_wpark x then 1 else 0) | Some RGate => 1 | Some RDone => 5 end)%N).
 
 Definition pobs_of (rets : list N) (s : st) (from : nat) : pobs :=
   {| po_rets := rets; po_gs := map gcode (gs s); po_target := nn (target s); po_terr := nn (terr s);
@@ -157,7 +157,9 @@ Inductive dec (h : hst) : list N -> ev -> list N -> Prop :=
 | D_cbret c res x v : nth_error (conss (hs h)) (n2n c) = Some x -> ck x = CKAccess -> cpcv x = CAccCb v ->
     (res = 0 \/ res = 1 \/ res = 10 \/ res = 11)%N -> dec h [13; c; res]%N (ECbReturn (n2n c) (n2n res)) []
 | D_cancel c x : nth_error (conss (hs h)) (n2n c) = Some x -> ccanc x = false -> dec h [11; c]%N (EConsCancel (n2n c)) []
-| D_fire c x : nth_error (conss (hs h)) (n2n c) = Some x -> ww_firepc x = Some RGate -> dec h [12; c]%N (EFire (n2n c)) [].
+| D_fire c x : nth_error (conss (hs h)) (n2n c) = Some x -> ww_firepc x = Some RGate -> dec h [12; c]%N (EFire (n2n c)) []
+| D_watch c x : nth_error (conss (hs h)) (n2n c) = Some x -> ck x = CKAccess -> (0 < ac_wstale x \/ ac_wpark x = true) ->
+    dec h [15; c]%N (EWatch (n2n c)) [].
 
 Definition fin_of (h : hst) (s1 : st) (rets : list N) : hst * list N :=
   ({| hs := settle s1; hrel := length (rellog (settle s1)); hconst := hconst h |}, obs_of rets (settle s1) (hrel h)).
@@ -197,6 +199,10 @@ Proof.
           | |- context [match ?l with [] => _ | _ :: _ => _ end] => destruct l as [|? ?]; try discriminate
           | |- context [match ?p with xH => _ | xO _ => _ | xI _ => _ end] => destruct p; try discriminate
           end).
+  - (* 15 *) destruct (nth_error (conss (hs h)) (n2n n)) as [x|] eqn:Ex; [|discriminate]. destruct (ck x) eqn:Ek; try discriminate.
+    destruct (Nat.ltb 0 (ac_wstale x) || ac_wpark x) eqn:Ew; [|discriminate].
+    assert (Hw : 0 < ac_wstale x \/ ac_wpark x = true) by (apply orb_true_iff in Ew; destruct Ew as [Ew|Ew]; [left; now apply Nat.ltb_lt | now right]).
+    intros H. inversion H. eexists _, _. split; [eapply D_watch; eauto | reflexivity].
   - (* 11 *) destruct (nth_error (conss (hs h)) (n2n n)) as [x|] eqn:Ex; [|discriminate]. destruct (ccanc x) eqn:Ec; [discriminate|].
     intros H. inversion H. eexists _, _. split; [eapply D_cancel; eauto | reflexivity].
   - (* 9 *) destruct (nth_error (gs (hs h)) (n2n n)) as [x|] eqn:Ex; [|discriminate]. destruct (gpcv x) eqn:Ep; try discriminate.
